@@ -12,8 +12,13 @@
 //	    on the volumes) against a set model;
 //	(C) engine A (lib/bfs): every history <= d of namespace calls written with
 //	    portable paths, executed in lock-step on a Linux-typed and a
-//	    Windows-typed instance; per call: same success/failure (finer: same
-//	    error class, right error family), afterwards isomorphic trees;
+//	    Windows-typed instance; per call: same success/failure, right error
+//	    family, and the portable CLASS of a failure (errors.Is against
+//	    fs.ErrNotExist/ErrExist/ErrPermission, avfs.IsNotExist/IsExist: what
+//	    the errno is on its own OS, the Linux type's class also on the
+//	    Windows type), the helpers that branch on it (avfs.Exists, DirExists,
+//	    IsDir, IsEmpty) being calls of the alphabet; afterwards isomorphic
+//	    trees;
 //	    systems: harness configuration (default volume, added volume,
 //	    non-initial tree) and the default configuration of the emulated OS
 //	    ("+sys") with the default locations as operands, reached with the
@@ -156,6 +161,7 @@ func main() {
 	var (
 		sst        staticStats
 		vst        volStats
+		vcst       volContentStats
 		pst        patStats
 		hst        helpStats
 		all        []bfs.Stats
@@ -193,6 +199,14 @@ func main() {
 	if consOK && harnessErr == "" {
 		if err := runVolumes(rep, vl, &vst); err != nil {
 			harnessErr = "volumes: " + err.Error()
+		}
+
+		if harnessErr == "" {
+			if err := runVolumeContent(rep, &vcst); err != nil {
+				harnessErr = "volume content: " + err.Error()
+			}
+
+			fmt.Printf("C17 volume content: scenarios=%d calls=%d names checked after VolumeDelete=%d\n", vcst.Scenarios, vcst.Calls, vcst.Checks)
 		}
 	}
 
@@ -390,7 +404,7 @@ func main() {
 			"states": states, "transitions": trans, "traces_validated_against_impl": trans,
 			"evaluations": trans + vst.ChecksWindows + vst.ChecksLinux + sst.Checked + pst.Calls + hst.Checks, "distinct_nontrivial": len(outcomes),
 			"outcome_classes": outcomes,
-			"rule": "(C) every history of length <= bound over the portable call alphabet (namespace calls, Glob and WalkDir with the wildcard / the root at every depth from the volume root down; every path-taking call, Chdir included, also with its operands in each other spelling of the Windows type: forward slashes, volume left out, both - on the Windows-typed side only; names that differ from a name of the alphabet by the letter case of one element as entries of their own and as the two operands of Rename and Link; systems +sys: also the calls on the default locations $TMP, $HOME, $HOMEUSER and CreateTemp/MkdirTemp with dir \"\", system @D+sys: the same with the current directory of the Windows-typed side on an added volume, the system area staying on C:) executed in lock-step on a fresh Linux-typed and a fresh Windows-typed real instance, oracle on every transition; " +
+			"rule": "(C) every history of length <= bound over the portable call alphabet (namespace calls, the helpers of package avfs that answer by the class of a failure - Exists, DirExists, IsDir, IsEmpty - on every operand of the one-path calls, Glob and WalkDir with the wildcard / the root at every depth from the volume root down; every path-taking call, Chdir included, also with its operands in each other spelling of the Windows type: forward slashes, volume left out, both - on the Windows-typed side only; names that differ from a name of the alphabet by the letter case of one element as entries of their own and as the two operands of Rename and Link; systems +sys: also the calls on the default locations $TMP, $HOME, $HOMEUSER and CreateTemp/MkdirTemp with dir \"\", system @D+sys: the same with the current directory of the Windows-typed side on an added volume, the system area staying on C:) executed in lock-step on a fresh Linux-typed and a fresh Windows-typed real instance, oracle on every transition (same success/failure, values of read-only calls, trees, current directory; of a call failing on both: error family and portable error class, also judged in (A) and (D)); " +
 				"(D) every operand of <= bound elements over the element alphabet, absolute and relative, given to Glob (all), WalkDir and ReadDir (operands without wildcard) on both instances holding the same fixed tree, from each current directory, results compared in portable spelling; " +
 				"(B) every sequence of length <= bound over the volume alphabet executed on a fresh real MemFS of each OS type against the set model; " +
 				"(A) fixed list of facts and failing calls; the default configurations (constructor's system directories x default / same-type identity manager): each default location is an existing directory on both types or on neither, CreateTemp/MkdirTemp with dir \"\" agree; " +
@@ -404,7 +418,7 @@ func main() {
 				"helper sequences of length <= %d over %d calls (users %s, base paths \"\" and the volume of the root), %d default configurations",
 				d, depthDone, caseBound(*tier), spelledBound(*tier), vl, vst.AlphabetSize, pst.MaxElems, len(pst.Elements), strings.Join(pst.Elements, " "), len(pst.Cwds), len(pst.Systems), pst.MaxElems,
 				hst.MaxLen, len(hst.Alphabet), strings.Join(hst.Users, ","), len(hst.Systems)),
-			"systems": all, "static": sst, "volumes": vst, "patterns": pst, "helpers": hst,
+			"systems": all, "static": sst, "volumes": vst, "volume_content": vcst, "patterns": pst, "helpers": hst,
 			"static_facts_checked": sst.Checked, "volume_sequences_enumerated": vst.Sequences, "helper_sequences_enumerated": hst.Sequences,
 			"known_findings_matched": rep.KnownMatched(), "skipped": skipped,
 			"violation_instances": rep.Total,
@@ -412,7 +426,9 @@ func main() {
 		Assumptions: []string{
 			"state identity of (C) = portable tree dump of the Linux-typed side through the public API (names, types, sizes, bytes, link counts, link targets, hard-link classes; no permission bits, owners, mtimes) + its current directory; a state whose two sides differ is keyed by both dumps and not expanded",
 			"permission bits and owners are never compared; Chown, Lchown, Chmod are not in the alphabet (documented as OS-specific); mtimes are not compared (not named by the property)",
-			"correspondence of error values = avfs.Errors.SetOSType table plus the explicit OSType()==OsWindows branches of single calls (errmap.go); a mismatch is reported under kind error-class, separate from kind outcome",
+			"portable error class of a failing call = the subset of {fs.ErrNotExist, fs.ErrExist, fs.ErrPermission} the returned error satisfies under errors.Is (avfs.IsNotExist / avfs.IsExist have to say the same). Judged (kind error-class) in (A), (C), (D): per side the value is in the class its errno is in on the OS it stands for (Linux type: syscall.Errno of this Linux host; Windows type: the table of syscall.Errno.Is of GOOS=windows - 2, 3, 53 not-exist; 5 permission; 80, 145, 183 exist); pairwise a failure in a class on the Linux type is in the same class on the Windows type unless an OSType()==OsWindows branch of the call itself states another value (errmap.go callCompat). Not demanded: the converse (ENOTDIR and EBADF have no class, their counterparts in Errors.SetOSType, ErrWinPathNotFound and ErrWinAccessDenied, have one, as on Windows itself) - where a helper turns that into success on one type only it is reported as kind outcome (KF-C17-005)",
+			"class-branching helpers in (C): avfs.Exists, DirExists, IsDir, IsEmpty (explicit list, vfs_aferoutils.go) with every operand and spelling of the one-path calls, among them names whose last element is missing, names whose parent is missing and names below a file; their boolean is compared, except IsEmpty of the root in the default configuration (the system area has no counterpart); a helper's own error (IsEmpty: fmt.Errorf) counts as an OS-independent value",
+			"correspondence of error NUMBERS = avfs.Errors.SetOSType table plus the explicit OSType()==OsWindows branches of single calls (errmap.go) is informational (VERIF_C17_ERRCLASS=1 reports a mismatch under kind error-class too)",
 			"CustomError values and io/fs sentinels (fs.ErrClosed, fs.ErrExist ...) are accepted on both OS types as OS-independent values",
 			"the same PANIC/DEADLOCK on both OS types is not a C17 difference (owned by C07); one on a single side is",
 			"random part of temp names supplied by the harness: the sequence 0,1,0,1.. restarted for every call on each side",
